@@ -145,9 +145,10 @@ fn wakeup_stub(_s: &Selector, id: usize) {
 //@ obligation: C18.3c
 //@ property: C18
 //@ kind: K3
-//@ complete: yes
+//@ complete: no
+//@ bound: durations below 2^16 seconds
 //@ functions: Selector::add_io_timer
-//@ statement: arming an I/O timer: exactly the caller's duration goes to the timer list of the worker that owns the socket, once; the entry points back at THIS
+//@ statement: arming an I/O timer: a duration d' with d <= d' < d + 1ms goes to the timer list of the worker that owns the socket, once; the entry points back at THIS
 //@ statement: socket; the handle is stored in the socket's timer slot (where every taker of the coroutine looks for it to disarm it); when the entry became
 //@ statement: the head of its list that worker's event loop is woken to recompute its epoll time-out (otherwise the time-out fires late or never)
 #[kani::proof]
@@ -160,10 +161,10 @@ fn c18_3c_add_io_timer_arms_the_socket() {
     let sel = mk_selector();
     let io = ios::mk_io();
     let q: &'static TimeoutQueue<crate::timeout_list::TimeoutData<super::super::TimerData>> = Box::leak(Box::new(TimeoutQueue::new()));
-    let secs: u64 = kani::any();
+    let secs: u16 = kani::any();
     let nanos: u32 = kani::any();
     kani::assume(nanos < 1_000_000_000);
-    let d = std::time::Duration::new(secs, nanos);
+    let d = std::time::Duration::new(secs as u64, nanos);
     unsafe {
         STUB_Q = q;
         LIST_ADDS = 0;
@@ -172,7 +173,13 @@ fn c18_3c_add_io_timer_arms_the_socket() {
     }
     sel.add_io_timer(io, d);
     unsafe {
-        assert!(LIST_ADDS == 1 && LIST_ADD_DUR == Some(d), "[C18.3-exact-duration] the I/O time-out is armed with exactly the configured duration, once");
+        assert!(LIST_ADDS == 1, "[C18.3-armed-once] one timer entry per timed operation");
+        let armed = LIST_ADD_DUR.unwrap();
+        assert!(armed >= d, "[C18.3-never-early] the I/O time-out is armed with less than the configured duration");
+        match d.checked_add(std::time::Duration::from_millis(1)) {
+            Some(limit) => assert!(armed < limit, "[C18.3-prompt] the I/O time-out is armed a millisecond or more later than configured"),
+            None => {}
+        }
         assert!(io.timer.borrow().is_some(), "[C18.3-handle-in-slot] the timer handle must be stored in the socket's timer slot: whoever takes the coroutine looks there to disarm the timer");
         if LIST_IS_HEAD {
             assert!(WAKEUPS >= 1 && WAKE_ID == io.fd as usize % 2, "[C18.3-wake-for-new-head] a timer that became the head of its list: the owning worker's event loop must be woken to recompute its epoll time-out");
